@@ -128,6 +128,16 @@ def run(ctx):
     for seed in [0, 5, rng.randint(-10 ** 6, 10 ** 6)][:2 if quick else 3]:
         for tool, ln in file_lines:
             cases.append((tool, ['--seed', seed] + ln, b'', seed))
+    # `--seed` typed AFTER the formula arguments (or after a -T): the tools refuse it today; a tool that accepted it would have
+    # sampled the graph argument before the seed was installed
+    for seed in [0, 7, rng.randint(1, 10 ** 6)][:2 if quick else 3]:
+        for opt in ('--seed', '-S'):
+            cases.append(('cnfgen', ['kcolor', 3, 'gnp', 8, '.5', opt, seed], b'', seed))
+            cases.append(('cnfgen', ['tseitin', 'randomodd', 'gnd', 10, 4, opt, seed], b'', seed))
+            cases.append(('cnfgen', ['php', 'glrp', 5, 4, '.5', opt, seed], b'', seed))
+            cases.append(('pbgen', ['kcolor', 3, 'gnp', 8, '.5', opt, seed], b'', seed))
+            cases.append(('cnfgen', ['randkcnf', 3, 10, 5, opt, seed], b'', seed))
+            cases.append(('cnfgen', ['kcolor', 3, 'gnm', 7, 9, '-T', 'shuffle', opt, seed], b'', seed))
     for c in cases:
         seen.add((c[0], tuple(map(str, c[1])), c[2]))
         ctx.tally('tool', c[0])
@@ -186,6 +196,10 @@ def run(ctx):
             continue
         same = (a['out'] == b['out'] and a['rc'] == b['rc'])
         if ok is True and same:
+            continue
+        if same and not good and a['out'] == b'':
+            # refused command line, nothing written, both runs alike: whatever was drawn while parsing never reached an output
+            ctx.tally('outcome', 'refused after drawing (no output to judge)')
             continue
         ctx.disagreements_checked += 1
         if not same:
